@@ -7,6 +7,9 @@
 //   jprop <text>                  JSONProperty::parse
 //   jobjparse <text>              JSON::parse_as_properties
 //   jobjwrite <props>             JSON::to_json_string on an arbitrary property list
+//   jreadchars <bytes>            json::read_utf8_char + String::from_utf8 (the single-character read of both scanners)
+//                                 repeated on ARBITRARY bytes until none is left: the characters, or `err`
+//   jnumeric                      the scalars above U+007F with char::is_numeric, as ranges
 //   jrt <kind> <tree>             struct-level round trip through structs implementing
 //                                 ToJSON/FromJSON/New the way the repository's tests do
 //
@@ -470,6 +473,37 @@ pub fn dispatch(op: &str, f: &[String]) -> Option<String> {
     int_list!(op, f, u16, parse_as_list_u16, to_json_from_list_u16, "u16");
     int_list!(op, f, u8, parse_as_list_u8, to_json_from_list_u8, "u8");
     match op {
+        "jreadchars" => {
+            let bytes = match f.get(0).and_then(|s| unhex(s)) { Some(b) => b, None => return bad() };
+            let total = bytes.len() as u64;
+            let mut cursor = std::io::Cursor::new(bytes);
+            let mut out = String::new();
+            while cursor.position() < total {
+                let before = cursor.position();
+                let mut char_buffer = vec![0];
+                if crate::json::read_utf8_char(&mut cursor, &mut char_buffer).is_err() { return Some("err".to_string()); }
+                if cursor.position() - before != char_buffer.len() as u64 { return Some("err-accounting".to_string()); }
+                match String::from_utf8(char_buffer) {
+                    Ok(s) => { if s.chars().count() != 1 { return Some("err-not-one-char".to_string()); } out.push_str(&s); }
+                    Err(_) => return Some("err".to_string()),
+                }
+            }
+            Some(ok_bytes(out.as_bytes()))
+        }
+        "jnumeric" => {
+            let mut ranges: Vec<String> = vec![];
+            let mut cur: Option<(u32, u32)> = None;
+            for u in 0x80u32..=0x110000 {
+                let is = char::from_u32(u).map(|c| c.is_numeric()).unwrap_or(false);
+                match (is, cur) {
+                    (true, None) => cur = Some((u, u)),
+                    (true, Some((a, _))) => cur = Some((a, u)),
+                    (false, Some((a, b))) => { ranges.push(format!("{}-{}", a, b)); cur = None; }
+                    _ => {}
+                }
+            }
+            Some(format!("ok {}", ranges.join(",")))
+        }
         "jsplit" => {
             let t = match text_arg(f, 0) { Ok(t) => t, Err(e) => return Some(e) };
             Some(match RawUnprocessedJSONArray::split_into_vector_of_strings(t) {
